@@ -729,8 +729,12 @@ func parseCharacterEscape(text []byte) (end int) {
 }
 
 func isEntity(x []byte) bool {
+	// html.UnescapeString also decodes the entities that HTML accepts
+	// without a semicolon when they are only a prefix of the name
+	// ("&notit;" becomes "¬it;"). Such a name is not an entity:
+	// its semicolon is left over, unlike that of a real entity.
 	s := html.UnescapeString(string(x))
-	return !strings.HasPrefix(s, "&") || !strings.HasSuffix(s, ";")
+	return !strings.HasSuffix(s, ";") || string(x) == "&semi;"
 }
 
 func (p *InlineParser) parseDelimiterRun(state *inlineState, start int) (end int) {
